@@ -84,6 +84,7 @@ type Violation struct {
 	Func      string      `json:"func"`
 	InterpOK  bool        `json:"interp_model_check"`
 	Trace     []string    `json:"trace,omitempty"`
+	Sched     []SchedEv   `json:"sched,omitempty"` // order in which the visible operations took effect (interpretive replay)
 }
 
 func (v *Violation) key() string { return v.Label + "|" + v.Scenario }
@@ -822,6 +823,7 @@ func InterpReplay(P *Program, job *Job, v *Violation) (string, bool) {
 	fn := pkg.Func(job.Func)
 	body := &FuncV{name: "main", native: func(in *Interp, _ []Value) Value {
 		in.runInits()
+		in.schedRec = true // package initialisers are not part of the native harness run
 		in.callSSA(nil, 0, fn, nil, nil)
 		return nil
 	}}
@@ -829,6 +831,7 @@ func InterpReplay(P *Program, job *Job, v *Violation) (string, bool) {
 	main.isMain = true
 	in.resume(main)
 	in.sched.wg.Wait()
+	v.Sched = in.schedTrace
 	ab := r.abortV
 	if job.Verbose {
 		v.Trace = append([]string(nil), in.hostLog...)
